@@ -208,10 +208,21 @@ ProgTags(p) ==
 InitState(e) == [gpr |-> e.gpr, hi |-> e.hi, lo |-> e.lo, mem |-> e.mem0, win |-> e.win]
 InCode(p, a) == a[1] % 4 = 0 /\ OffOf(p, a) < 4 * NW(p)
 \* m = [k ("run" | "diverge" | "unspec"), st, prev, lastbr, pc, npc, at, why]
-RECURSIVE Walk(_, _, _, _)
-Walk(p, m, pcs, k) ==
-  IF m.k # "run" \/ k > Len(pcs) THEN m
-  ELSE IF pcs[k] # Zext(64, m.pc) THEN [m EXCEPT !.k = "diverge", !.at = k]
+\* The recorder logs an address when it CHANGES (or right after an executed IL Branch).  A word that is executed twice
+\* in a row - only possible for a branch to its own delay slot: once as the delay slot, once as the target - therefore
+\* shows once in the log.  When the machine is about to repeat the word it executed last and the log does not show the
+\* repetition, the machine steps without consuming a logged address (the final state still shows whether the lifter
+\* executed the word twice).  fin = the logged address of the instruction the run stopped in front of (<<>> if none).
+RECURSIVE Walk(_, _, _, _, _)
+Walk(p, m, pcs, k, fin) ==
+  IF m.k # "run" THEN m ELSE
+  LET repeat == m.pc = m.last
+      logged == k <= Len(pcs) /\ pcs[k] = Zext(64, m.pc)
+      k1     == IF logged THEN k + 1 ELSE k
+      at1    == IF logged THEN k ELSE m.at
+  IN
+  IF k > Len(pcs) /\ ~(repeat /\ fin # <<>> /\ fin # Zext(64, m.pc)) THEN m
+  ELSE IF ~logged /\ ~repeat THEN [m EXCEPT !.k = "diverge", !.at = k]
   ELSE IF ~InCode(p, m.pc) THEN [m EXCEPT !.k = "unspec", !.why = "control leaves the code"]
   ELSE
   LET d == DecAt(p, OffOf(p, m.pc) \div 4)  seq4 == Add(32, m.npc, N32(4)) IN
@@ -221,12 +232,14 @@ Walk(p, m, pcs, k) ==
        IF ~b.ok \/ m.lastbr THEN [m EXCEPT !.k = "unspec", !.why = "UNPREDICTABLE branch / unaligned target / branch in a delay slot"]
        ELSE Walk(p, TLCEval([m EXCEPT !.prev = m.st,
                                       !.st = IF b.link >= 0 THEN MW(m.st, b.link, Add(32, m.pc, N32(8))) ELSE m.st,
-                                      !.lastbr = TRUE, !.pc = m.npc, !.npc = IF b.taken THEN b.target ELSE seq4, !.at = k]),
-                 pcs, k + 1)
+                                      !.lastbr = TRUE, !.pc = m.npc, !.npc = IF b.taken THEN b.target ELSE seq4,
+                                      !.at = at1, !.last = m.pc]),
+                 pcs, k1, fin)
   ELSE LET r == MExec1(d, m.st, Big(p))[1] IN
        IF r.k # "ok" THEN [m EXCEPT !.k = "unspec", !.why = IF r.k = "trap" THEN "exception" ELSE r.why]
-       ELSE Walk(p, TLCEval([m EXCEPT !.prev = m.st, !.st = r.st, !.lastbr = FALSE, !.pc = m.npc, !.npc = seq4, !.at = k]),
-                 pcs, k + 1)
+       ELSE Walk(p, TLCEval([m EXCEPT !.prev = m.st, !.st = r.st, !.lastbr = FALSE, !.pc = m.npc, !.npc = seq4,
+                                      !.at = at1, !.last = m.pc]),
+                 pcs, k1, fin)
 
 \* PPC: no delay slot, PExec gives the next pc; don't-care components (the SO bit a compare copies) accumulate
 PInitState(e) == [gpr |-> e.gpr, lr |-> e.lr, ctr |-> e.ctr, ca |-> e.ca, cr |-> e.cr, mem |-> e.mem0, win |-> e.win]
@@ -242,7 +255,7 @@ PMachine0(p, e) == [k |-> "run", st |-> PInitState(e), prev |-> PInitState(e), l
                     pc |-> AddrAt(p, p.entry), npc |-> AddrAt(p, p.entry + 1), at |-> 0, why |-> "", dc |-> {}]
 
 Machine0(p, e) == [k |-> "run", st |-> InitState(e), prev |-> InitState(e), lastbr |-> FALSE,
-                   pc |-> AddrAt(p, p.entry), npc |-> AddrAt(p, p.entry + 1), at |-> 0, why |-> "", dc |-> {}]
+                   pc |-> AddrAt(p, p.entry), npc |-> AddrAt(p, p.entry + 1), at |-> 0, why |-> "", dc |-> {}, last |-> <<>>]
 NativePcs(e) == SelectSeq(e.pcs, LAMBDA a : ~IsPseudo(a))
 
 \* components of the final state (as in Trace_C02)
@@ -290,10 +303,15 @@ RunDetail(p, e, m) ==
       \* that instruction is a delay-slot word that was entered by a jump (not behind its branch): the state
       \* class of the shared delay-slot instance
       slotjump == /\ i >= 1 /\ MIsBranch(DecAt(p, i - 1).mn) /\ pw(la - 1) # 4 * (i - 1)
+      \* ... and the jump was an IL Branch that the Driver resolves by address: the instruction executed before it is
+      \* the delay slot of a jr or of a jal (calls are lifted as IL Branch operations)
+      jb  == IF pw(la - 2) % 4 = 0 /\ pw(la - 2) < 4 * NW(p) THEN pw(la - 2) \div 4 ELSE -1
+      indirect == slotjump /\ jb >= 0 /\ pw(la - 1) = 4 * (jb + 1) /\ DecAt(p, jb).mn \in {"jr", "jal"}
   IN [at |-> m.at, expected_pc |-> m.pc, last_word |-> i,
       last_mn |-> IF i < 0 THEN "" ELSE IF IsMips(p) THEN DecAt(p, i).mn ELSE PDecode(WordAt(p, i)).mn,
       last_is_slot |-> (IsMips(p) /\ i >= 1 /\ MIsBranch(DecAt(p, i - 1).mn)),
       entered_slot_by_jump |-> (IsMips(p) /\ slotjump),
+      entered_slot_by_il_branch |-> (IsMips(p) /\ indirect),
       regs |-> [k \in 1..Len(bad) |-> [n |-> bad[k].n, v |-> bad[k].ev]]]
 
 \* ---- verdicts ------------------------------------------------------------------------------
@@ -319,7 +337,8 @@ BeginVerdict(e) ==
 
 RunVerdict(p, e) ==
   IF ~RunShape(p, e) THEN V("reject", "run:malformed", "malformed event", <<>>)
-  ELSE LET m == TLCEval(IF IsMips(p) THEN Walk(p, Machine0(p, e), NativePcs(e), 1)
+  ELSE LET m == TLCEval(IF IsMips(p) THEN Walk(p, Machine0(p, e), NativePcs(e), 1,
+                                                   IF e.out.k \in {"limit", "exit"} THEN e.out.npc ELSE <<>>)
                                       ELSE PWalk(p, PMachine0(p, e), NativePcs(e), 1)) IN
        IF m.k = "unspec" THEN V("unspec", "run:unspec", m.why, <<>>)
        ELSE LET d == RunDiff(p, e, m) IN
